@@ -259,6 +259,11 @@ let () =
       let id = f.(0) in
       incr cases;
       (try
+         (* decoding a Feature / FeatureCollection document must not depend on what the receiver held before *)
+         if (f.(1) = "F" || f.(1) = "FD" || f.(1) = "C" || f.(1) = "CD") && Array.length f > 6
+            && String.length f.(6) > 5 && String.sub f.(6) 0 5 = "HIST " then
+           fail id "SPEC" "feature_decode_depends_on_receiver" (trunc f.(6))
+         else
          match f.(1) with
          | "G" -> geom_case id f
          | "D" -> doc_case id f
